@@ -35,6 +35,9 @@ type GNode struct {
 	Any    interface{}
 	Attrs  map[string]interface{}
 	Leaf   *GLeaf
+	// maps whose VALUES are slices / maps that other fields share
+	Groups  map[string][]*GNode
+	Buckets map[string]map[string]int
 	// an exported reference field the stacker skips: still part of the graph
 	// the deep copier has to reproduce
 	Skip *GNode `dials:"-"`
@@ -90,6 +93,8 @@ type NodeDesc struct {
 	Attrs    map[string]AnyDesc `json:"attrs,omitempty"`
 	Leaf     *LeafDesc          `json:"leaf,omitempty"`
 	SkipP1   int                `json:"skip_p1,omitempty"` // node index + 1 for the dials:"-" field, 0 = nil
+	Groups   map[string]int     `json:"groups,omitempty"`  // key -> node whose Kids slice is the (shared) value
+	Buckets  map[string]int     `json:"buckets,omitempty"` // key -> tag map pool index (shared with leaves)
 }
 
 type GraphDesc struct {
@@ -196,6 +201,18 @@ func genGraph(t *rapid.T) GraphDesc {
 			nd.ByName = rapid.IntRange(0, nm-1).Draw(t, "byname")
 		}
 		nd.Any = genAny(t, n, nm, i, "any")
+		if rapid.IntRange(0, 3).Draw(t, "has_groups") == 0 {
+			nd.Groups = map[string]int{}
+			for j, k := 0, rapid.IntRange(1, 3).Draw(t, "groups_len"); j < k; j++ {
+				nd.Groups[fmt.Sprintf("g%d", j)] = rapid.IntRange(0, n-1).Draw(t, "group_of")
+			}
+		}
+		if len(g.TagMaps) > 0 && rapid.IntRange(0, 3).Draw(t, "has_buckets") == 0 {
+			nd.Buckets = map[string]int{}
+			for j, k := 0, rapid.IntRange(1, 3).Draw(t, "buckets_len"); j < k; j++ {
+				nd.Buckets[fmt.Sprintf("b%d", j)] = rapid.IntRange(0, len(g.TagMaps)-1).Draw(t, "bucket_of")
+			}
+		}
 		if rapid.IntRange(0, 2).Draw(t, "has_skip") == 0 {
 			nd.SkipP1 = genNodeRef(t, n, "skip") + 1
 		}
@@ -401,6 +418,23 @@ func instantiate(g GraphDesc) *graphInst {
 			}
 		}
 	}
+	// pass 1c: maps whose values are other nodes' Kids slices / pooled tag maps
+	for i, nd := range g.Nodes {
+		if nd.Groups != nil {
+			gi.nodes[i].Groups = map[string][]*GNode{}
+			for _, k := range sortedKeys(nd.Groups) {
+				gi.nodes[i].Groups[k] = gi.node(nd.Groups[k]).kidsOrNil()
+			}
+		}
+		if nd.Buckets != nil {
+			gi.nodes[i].Buckets = map[string]map[string]int{}
+			for _, k := range sortedKeys(nd.Buckets) {
+				if b := nd.Buckets[k]; b >= 0 && b < len(gi.tagMaps) {
+					gi.nodes[i].Buckets[k] = gi.tagMaps[b]
+				}
+			}
+		}
+	}
 	// pass 2: interface payloads
 	for i, nd := range g.Nodes {
 		n := gi.nodes[i]
@@ -410,6 +444,13 @@ func instantiate(g GraphDesc) *graphInst {
 		}
 	}
 	return gi
+}
+
+func (n *GNode) kidsOrNil() []*GNode {
+	if n == nil {
+		return nil
+	}
+	return n.Kids
 }
 
 func sortedKeys(m map[string]int) []string {
@@ -821,7 +862,7 @@ func (l *lazySource) Value(_ context.Context, t *dials.Type) (reflect.Value, err
 func TestC03Graphs(t *testing.T) {
 	vrt.Check(t, vrt.Prop[C03Case]{
 		ID: "C03", Name: "graphs",
-		Rule: "object graphs of 0..8 nodes over the fixed family GNode/GLeaf/GRoot with arbitrary edges through struct-field pointers (one of them an exported field tagged dials:\"-\", which stacking skips but the copy must still reproduce), slices, arrays, maps, shared maps / *int, and interface payloads (*GNode, GNode by value, map[string]*GNode, []*GNode, [1]*GNode, []interface{}, a node's own Attrs map); " +
+		Rule: "object graphs of 0..8 nodes over the fixed family GNode/GLeaf/GRoot with arbitrary edges through struct-field pointers (one of them an exported field tagged dials:\"-\", which stacking skips but the copy must still reproduce), slices, arrays, maps, maps whose values are slices / maps shared with other fields, shared maps / *int, and interface payloads (*GNode, GNode by value, map[string]*GNode, []*GNode, [1]*GNode, []interface{}, a node's own Attrs map); " +
 			"copied directly by the deep copier (root *GNode or *GRoot), by Config with the graph in defaults and in a source value, and by a watcher re-stack; oracle: terminates, reflect.DeepEqual, and the in->out map of pointer/map references in fields, elements and map values is a function with a fresh range; " +
 			"non-trivial = the graph has a cycle or a reference with in-degree >= 2; distinct = distinct case JSON",
 		Assumptions: []string{
